@@ -33,7 +33,7 @@ CONSTANTS FsOf(_),        \* input handle -> file system (function path -> Seq(l
           MainOf(_),      \* input handle -> path of the main file
           Fuel,           \* include nesting bound (cyclic includes are outside the domain)
           DevF3,          \* repaired finding F3: conditionals not tracked once a moleculetype was seen in the file
-          DevMolsPerFile, \* [molecules] entries instantiated per file at its end, numbered from 0 per file (the tree does this)
+          DevMolsPerFile, \* repaired finding F16: [molecules] entries instantiated per file at its end, numbered from 0 per file
           DevDirKeep,     \* wrong design: a nested include keeps the directory of its includer
           DevElseKeep     \* wrong design: #else does not invert the condition
 
